@@ -1117,6 +1117,61 @@ def check_C08(run):
                                'distinct (type, mutation)' % len(chosen))
 
 
+# ===========================================================================
+# C09 fungibility
+
+
+def key_fung(ev, why, cmd=None):
+    if ev.get("e") in ("UB", "Crash", "Exc", "Timeout", "BadCmd"):
+        return abnormal_key('C09', ev, why, cmd)
+    if ev.get("e") == "FUNG":
+        return 'C09|FUNG|' + ','.join(why[:6]), 'IsFungible matrix violates: %s' % ', '.join(why[:12])
+    return 'C09|X|%s|%s|%s' % (ev.get("a"), ev.get("b"), ','.join(why)), 'write as %s / read as %s violates: %s (command %s)' % (
+        ev.get("a"), ev.get("b"), ', '.join(why), ev.get("idx"))
+
+
+def check_C09(run):
+    exe, types_path = vf.get_exe(run, 'plain')
+    thorough = run.tier == 'thorough'
+    ftypes_path = os.path.join(os.path.dirname(types_path), 'fung_types.json')
+    ftypes = load_types(ftypes_path)
+    tids = list(ftypes)
+    # first pass: the compile-time matrix
+    t1 = vf.exec_commands(run, exe, [{"c": "fung"}], 'c09m')
+    fung = json.loads(open(t1).readline())
+    if fung.get("tids") != tids:
+        raise vf.MachineryError('fung type list of the executor differs from fung_types.json')
+    gen = vals.Gen(seed=run.seed, big=False, nrandom=3 if thorough else 1)
+    cmds = [{"c": "fung"}]
+    npairs = 0
+    for i, a in enumerate(tids):
+        va = gen.values(ftypes[a])
+        # also counts below / at / above small capacities for sequences
+        for j, b in enumerate(tids):
+            if not fung["value"][i][j]:
+                continue
+            npairs += 1
+            for v in (va if thorough or i == j else va[:8]):
+                if len(json.dumps(v)) > 4000:
+                    continue
+                cmds.append({"c": "cross", "a": i, "b": j, "v": v})
+            run.distinct.add((a, b))
+    cmds = with_resets(cmds, 50)
+    run.samples = cmds[2:5]
+    trace = vf.exec_commands(run, exe, cmds, 'c09')
+    rejected = vf.tlc_validate(run, 'TrFung', 'TrCodec.cfg', trace, {"PROP": "C09", "TYPES": ftypes_path})
+    add_rejections(run, rejected, key_fung, index_cmds(cmds))
+    fut = start_model_check(run, 'MC_Wire', 'MC_Wire.cfg', workers=8)
+    fut.result()
+    run.coverage_extra["type_pairs"] = len(tids) ** 2
+    run.coverage_extra["fungible_pairs_cross_decoded"] = npairs
+    return vf.finish(run, rule='IsFungible evaluated by the compiler on all %d^2 ordered pairs of the type grammar (scalars, strings, '
+                               'vector/std::array/C array, tuples, pairs, maps, Optional/Result/Variant, structures, logical buffers '
+                               'with every integral size-member type, value wrappers, tables): reflexive, symmetric, documented '
+                               'pairs true, Protocol admission; every pair reported fungible is cross-decoded (write A, read B, '
+                               're-encode B) on boundary values of A; distinct = distinct fungible pairs' % len(tids))
+
+
 def replay(run, path):
     with open(path) as f:
         rp = json.load(f)
